@@ -1361,6 +1361,16 @@ fn gen(ctx: &Ctx) -> Vec<String> {
         cases.push(format!("ex=fb lim={} body={} cuts={}", lim, body, cuts_str(&toks)));
     }
 
+    // (F0) multipart default budgets (no explicit config values): 2 MiB memory, 50 MiB total, ±1
+    for n in [2_097_151usize, 2_097_152, 2_097_153] {
+        cases.push(format!("ex=mp form=A total=dflt mem=dflt fields=b:{} cuts=65536,p,100000", n));
+    }
+    for n in [52_428_800usize, 52_428_801] {
+        // an unknown field is discarded chunk by chunk but still charged to the total budget
+        let overhead = 0;
+        cases.push(format!("ex=mp form=B total=dflt mem=dflt fields=u:{} cuts=1000000", n - overhead));
+    }
+
     // (F) multipart forms
     let names = ["a", "a", "b", "t", "s", "u", "b"];
     for i in 0..ctx.budget(1500) {
